@@ -143,3 +143,127 @@ CONSTRUCTORS = {
         "clause": "from_instructions (which establishes the arity invariant) is the only function of zkir/src/zkir.rs holding a struct literal of ZkirRelation",
     },
 }
+
+
+# ---------------------------------------------------------------- arity table vs. the parsers' needs
+# process_instruction (off-circuit and in-circuit) is documented "Instructions are assumed to have the
+# right arity": it indexes inps[k] and hands `outputs` to insert_many, which asserts
+# names.len() == values.len().  Obligation (the precondition check_arity must establish): for every
+# operation, the arity table admits only input counts that cover every index the arm uses, and output
+# counts equal to the number of values the arm produces (where the arm ends in a vec![..] literal).
+import re as _re
+
+import rustscan as _rs
+
+
+def _arity_table(text, fn):
+    it = _rs.find_item(text, ["impl Operation", "fn " + fn])
+    body = _rs.fn_body_text(text, it)
+    tab = {}
+    for mm in _re.finditer(r"(\w+)(?:\(_\))? => (Fixed\((\d+)\)|SomeEven|Some)(?=[,\s}])", body):
+        tab[mm.group(1)] = ("Fixed", int(mm.group(3))) if mm.group(3) is not None else (mm.group(2), None)
+    if not tab:
+        raise Unsupported("lost anchor: arity table %s" % fn)
+    return tab
+
+
+def _arms(text, item):
+    it = _rs.find_item(text, item)
+    body = _rs.fn_body_text(text, it)
+    i = body.find("match instruction.operation {")
+    if i < 0:
+        raise Unsupported("lost anchor: `match instruction.operation` in %s" % item)
+    o = body.index("{", i)
+    depth, j = 0, o
+    while True:
+        depth += body[j] == "{"
+        depth -= body[j] == "}"
+        if depth == 0:
+            break
+        j += 1
+    inner = body[o + 1:j]
+    # split arms at depth 0 on `Name =>` / `Name(x) =>`
+    starts = []
+    depth = 0
+    for k, ch in enumerate(inner):
+        if ch in "([{":
+            depth += 1
+        elif ch in ")]}":
+            depth -= 1
+        elif depth == 0:
+            mm = _re.match(r"(\w+)(\(\w+\))? => ", inner[k:])
+            if mm and (k == 0 or inner[k - 1] in " ,}"):
+                starts.append((k, mm.group(1)))
+    arms = {}
+    for n, (k, name) in enumerate(starts):
+        end = starts[n + 1][0] if n + 1 < len(starts) else len(inner)
+        arms[name] = inner[k:end]
+    return arms
+
+
+def _vec_count(arm):
+    """number of elements of the vec![..] literal the arm evaluates to, or None"""
+    t = arm.rstrip().rstrip(",").rstrip()
+    if t.endswith("}"):
+        t = t[:-1].rstrip()
+    i = t.rfind("vec![")
+    if i < 0 or not t.endswith("]"):
+        return None
+    inner = t[i + 5:-1]
+    # the literal must close exactly at the end
+    depth = 0
+    for ch in inner:
+        depth += ch in "([{"
+        depth -= ch in ")]}"
+        if depth < 0:
+            return None
+    if inner.strip() == "":
+        return 0
+    depth, n = 0, 1
+    for ch in inner.rstrip().rstrip(","):
+        if ch in "([{":
+            depth += 1
+        elif ch in ")]}":
+            depth -= 1
+        elif ch == "," and depth == 0:
+            n += 1
+    return n
+
+
+def constants_check(read):
+    ar = read("zkir/src/instructions/arity.rs")
+    tin, tout = _arity_table(ar, "input_arity"), _arity_table(ar, "output_arity")
+    res = []
+    for label, file, item in (("offcircuit", "zkir/src/parser/offcircuit.rs", ["impl Parser", "fn process_instruction"]),
+                              ("incircuit", "zkir/src/parser/incircuit.rs", ["impl Parser", "fn process_instruction"])):
+        arms = _arms(read(file), item)
+        if set(arms) != set(tin) or set(arms) != set(tout):
+            raise Unsupported("operations of the %s parser %s differ from the arity tables %s" % (label, sorted(arms), sorted(tin)))
+        bad = []
+        for op, arm in sorted(arms.items()):
+            idx = [int(x) for x in _re.findall(r"\binps\[(\d+)\]", arm)]
+            kmax = max(idx) if idx else -1
+            kind, n = tin[op]
+            min_len = n if kind == "Fixed" else (1 if kind == "Some" else 2)
+            if kmax >= min_len:
+                bad.append("%s: arm indexes inps[%d] but input arity %s admits %d inputs" % (op, kmax, kind if n is None else "Fixed(%d)" % n, min_len))
+            m = _vec_count(arm)
+            okind, on = tout[op]
+            if m is not None and not (okind == "Fixed" and on == m):
+                bad.append("%s: arm produces %d values but output arity is %s (insert_many asserts equal lengths)" % (op, m, okind if on is None else "Fixed(%d)" % on))
+        res.append(("arity_table_covers_%s_parser" % label, not bad,
+                    "for every operation, check_arity admits only input counts covering every inps[k] the %s parser's arm uses and output counts equal to the number of values the arm's vec![..] produces (%s)"
+                    % (label, "; ".join(bad) if bad else "%d operations" % len(arms))))
+    return res
+
+
+# ---------------------------------------------------------------- external callees that panic
+PANICSITES = {
+    "mod_exp_offcircuit.zero_modulus": {
+        "file": "zkir/src/instructions/operations/mod_exp.rs", "item": ["fn mod_exp_offcircuit"],
+        "call": r"\.modpow\(", "guard": r"\bif [^{]*\bm\b[^{]*(is_zero\(\)|bits\(\) == 0|== &?BigUint::ZERO)[^{]*\{ return Err",
+        "why": "num_bigint::BigUint::modpow panics when the modulus is zero; the modulus is a value of the (untrusted) IR program",
+        "props": ["C16"], "witness": "mod_exp_zero_modulus",
+        "clause": "BigUint::modpow (panics on a zero modulus) is called only after a guard that returns an error for a zero modulus",
+    },
+}
